@@ -24,9 +24,17 @@
 #ifndef NBK
 #define NBK 3
 #endif
+static unsigned long g_ampraw; 
+#define BITSRC_HOOK(c,v) do{ if((c)==0) g_ampraw=(unsigned long)(v); }while(0)   /* ghost: the amplitude field as read */
 #include "bitsrc.c"
 static float g_raw[MMAX+8]; static int g_eop;
-void *_vorbis_block_alloc(vorbis_block *vb,long bytes){ CHECK(bytes>0 && bytes<=(long)sizeof(float)*(MMAX+3+1+8),"lsp vector allocation bounded by order + book dimension"); return malloc(bytes); }
+#ifndef MFIX
+#error "one job per order (MFIX): a symbolic allocation size exhausts memory in propositional reduction"
+#endif
+/* the request is checked to be exactly order+dim+1 floats and served with that CONSTANT size (a symbolic-size heap object made the
+   formula explode: no verdict within 60 GB); every access of the real code is then bounds-checked against the real request */
+static void *g_vec;   /* block-local storage belongs to the vorbis_block: released by the harness at the end */
+void *_vorbis_block_alloc(vorbis_block *vb,long bytes){ CHECK(bytes==(long)sizeof(float)*(MFIX+DIMC+1),"lsp vector request = order + book dimension + 1 floats"); g_vec=malloc(sizeof(float)*(MFIX+DIMC+1)); return g_vec; }
 long vorbis_book_decodev_set(codebook *book,float *a,oggpack_buffer *b,int n){ CHECK(book->dim>=1,"VQ book with dim>=1 (V_floor0)"); if(g_eop) return -1; for(int i=0;i<MMAX;i++) if(i<n) a[i]=g_raw[i]; return 0; }
 #include "floor0.c"
 int ov_ilog(ogg_uint32_t v){ int ret; for(ret=0;v;ret++)v>>=1; return ret; }
@@ -34,7 +42,13 @@ void harness(void){
   vorbis_info vi; codec_setup_info ci; vorbis_dsp_state vd; vorbis_block vb; memset(&vi,0,sizeof vi); memset(&ci,0,sizeof ci); memset(&vd,0,sizeof vd); memset(&vb,0,sizeof vb);
   vi.codec_setup=&ci; vd.vi=&vi; vb.vd=&vd; ci.books=ND_irange(1,NBK);
   static codebook fb[NBK]; ci.fullbooks=fb; for(int i=0;i<NBK;i++){ fb[i].dim=DIMC; }   /* configuration: one job per book dimension */
-  vorbis_info_floor0 info; info.order=ND_irange(1,MMAX); info.rate=44100; info.barkmap=64; info.ampbits=ND_irange(0,63); info.ampdB=ND_irange(0,255);
+  vorbis_info_floor0 info; 
+#ifdef MFIX
+  info.order=MFIX;
+#else
+  info.order=ND_irange(1,MMAX);
+#endif
+  info.rate=44100; info.barkmap=64; info.ampbits=ND_irange(0,63); info.ampdB=ND_irange(0,255);
   info.numbooks=ND_irange(1,16); for(int j=0;j<16;j++){ info.books[j]=ND_int(); if(j<info.numbooks) ASSUME(info.books[j]>=0 && info.books[j]<ci.books); }
   vorbis_look_floor0 *look=(vorbis_look_floor0 *)floor0_look(&vd,(vorbis_info_floor *)&info);
   CHECK(look && look->m==info.order && look->ln==info.barkmap && look->linearmap && look->linearmap[0]==0 && look->linearmap[1]==0,"look initialised, bark maps not yet built");
@@ -47,11 +61,16 @@ void harness(void){
     { float last=0.f; int j=0;
       while(j<MMAX){ for(int k=0;j<MMAX && k<DIMC;k++,j++) if(j<m){ float want=g_raw[j]+last; CHECK(lsp[j]==want || (lsp[j]!=lsp[j] && want!=want),"LSP coefficient = decoded scalar + last scalar of the PREVIOUS vector (spec 6.2.2)"); }
         if(j-1<m) last=lsp[j-1]; } }
+    /* spec 6.2.2 step 2/6.2.3: amplitude = field/(2^ampbits-1)*amplitude_offset, for every field width that can be read (<=32 bits) */
+    { float want=(float)g_ampraw/(float)((((unsigned long)1)<<info.ampbits)-1)*(float)info.ampdB;
+      CHECK(info.ampbits>=1 && info.ampbits<=32 && g_ampraw>=1,"floor in use only after a successful non-zero amplitude read");
+      CHECK(lsp[m]==want,"amplitude = field / (2^ampbits - 1) * offset, also for 31- and 32-bit fields (spec 6.2.2)");
+      if(info.ampbits==32 && g_ampraw>0x80000000UL) WITNESS_AT("32-bit amplitude with the top bit set"); }
     if(m>2*DIMC) WITNESS_AT("three or more vectors");
     WITNESS_AT("coefficients decoded");
-    free(lsp);
   } else WITNESS_AT("unused / end of packet");
   /* look life cycle: the decoder builds the two bark maps lazily (floor0_map_lazy_init), then frees the look */
   if(ND_BOOL()) look->linearmap[0]=malloc(8); if(ND_BOOL()) look->linearmap[1]=malloc(8);
   floor0_free_look((vorbis_look_floor *)look);
+  if(g_vec) free(g_vec);
 }
